@@ -328,15 +328,21 @@ libClearPos(Lib lib)
  * The Lib structure should own its FILE *, FileName, SymeList, Buffer,
  * and any foam extracted from the Buffer.
  */
-void
+Bool
 libClose(Lib lib)
 {
+	Bool	ok = true;
+
 	if (lib->rdOnly)
 		stabFree(lib->stab);
 	else
 		libPutHeader(lib);
 
-	if (!(lib->rdOnly & 2)) fclose(lib->file);	
+	if (!(lib->rdOnly & 2)) {
+		/* A library we wrote must have reached the file completely. */
+		if (!lib->rdOnly && ferror(lib->file)) ok = false;
+		if (fclose(lib->file) != 0) ok = false;
+	}
 	libUnRegister(lib);
 	fnameFree(lib->name);
 
@@ -346,6 +352,7 @@ libClose(Lib lib)
 	libClearPos(lib);
 
 	stoFree((Pointer) lib);
+	return ok;
 }
 
 Bool
